@@ -17,6 +17,18 @@ CHECKS = {
              text="Feasibility is evaluated by TLC at every observed state of every run (every stopping point), scenarios restricted by the spec to constraint penalties; finiteness of every returned number.", ref="6 C04"),
  "C17": dict(tech="CDCore invariants HistFaithful, CritOfReturned (TLC) + trace validation (hist_len, hist_value, hist_ret, hist_last, crit_of_returned, crit_value) for all nine solvers",
              text="The monitor counts record events, compares each recorded value with the oracle objective at that moment, the returned array with what was recorded, and the returned stopping value with the oracle violation of the returned point.", ref="6 C17"),
+ "C06": dict(tech="exact lattice vectors judged by TLC against the documented losses written in TLA+ (Datafit.tla: derivatives derived by exact central differences / Huber piece table / closed rational forms on the ln2-lattice) + accessor and dense==CSC agreement facts judged by the RelTrace monitor",
+             text="For every datafit and accessor TLC recomputes, with exact rational arithmetic, the value the documented loss demands at each lattice point and compares it with what the compiled code returned; accessor/storage agreement (incl. Cox with ties and censoring, Breslow and Efron) is judged on ranks.", ref="6 C06",
+             note="Trusted: the transcription of the documented loss formulas (specs/math/Datafit.tla, harness/oracle/datafits.py), float->rational snapping at 1e-10, numpy. Exhaustive only over the sampled lattice (seeded)."),
+ "C07": dict(tech="piece-table penalty definitions in TLA+ (Penalty.tla) with ProxSet derived as exact argmin; TLC decides membership of the code's prox output at every lattice point; dominance / KKT facts (RelTrace) for non-piecewise, block and SLOPE penalties",
+             text="The prox is never transcribed: TLC derives the set of global minimisers from the documented penalty table (breakpoints + stationary points, exact rationals) and decides whether the compiled prox returned one of them, for all lattice inputs, steps, weights (zero included) and positivity; other penalties by dominance certificates.", ref="6 C07",
+             note="Trusted: piece tables transcribed from docstrings; oracle values for non-piecewise penalties (gated against the spec on the lattice each run); snapping at 1e-10. Lattices are finite."),
+ "C08": dict(tech="regular subdifferential [LeftD, RightD] and its distance derived in TLA+ from the piece tables; TLC compares with subdiff_distance/value at every lattice (w, grad); the prox-fixed-point <=> zero-distance law is checked by TLC both on the definition and on the code's outputs",
+             text="TLC derives one-sided derivatives, subdifferential and distance from the penalty tables and decides equality with the code's score at every lattice point incl. kinks, boundaries, zero weights and infeasible points (distance must be infinite); block penalties against the oracle on rank-encoded facts.", ref="6 C08",
+             note="Trusted: as C07."),
+ "C09": dict(tech="TLC certifies observed coordinate constants against the exact second derivative of the documented loss (DataVec.tla, rational arithmetic); block/global constants against reference spectral norms as RelTrace facts (bound, tightness, sparse <= dense within power-method accuracy)",
+             text="Constants are observed from the code and certified by TLC against the defining curvature inequality on exact data; global/block constants against eigenvalue references; Cox/sqrt Hessian accessors against dominance over lattice directions.", ref="6 C09",
+             note="Trusted: numpy eigvalsh as the reference spectral norm; central differences of the oracle gradient for Cox curvature; Datafit.tla transcription."),
 }
 NA = []
 checks = []
